@@ -1,7 +1,7 @@
 /-
 C01 (source tie) — the hand-written model of `Roas::mode` equals the definition that the
 translator `pure_fns` regenerates from `/repo/src/server/ca/roa.rs` on every run
-(`Generated/PureFns.lean`, `KM.Gen.Roas.mode`).
+(`Generated/PureFnsC01.lean`, `KM.Gen.Roas.mode`).
 
 `mode_characterisation` and `roas_payloads_exact` (Props/C01.lean) are about `KM.Ca.Pub.Roas.mode`.
 With `gen_mode_eq_model` that function is tied to the Rust body statement by statement: an edit of
@@ -13,7 +13,7 @@ from the Rust `enum RoaMode` (variant names as in Rust); `toModel` is the obviou
 the model's `KM.Ca.Pub.RoaMode`.  `self` enters the Rust function only through
 `self.is_currently_aggregating()` (name map of the translator), the model's `Roas.isAggregating`.
 -/
-import KrillModel.Generated.PureFns
+import KrillModel.Generated.PureFnsC01
 import KrillModel.Ca.RoaObjects
 namespace KM.Props.C01Src
 open KM.Ca.Pub
